@@ -152,7 +152,7 @@ class TT():
             if len(N) != d or len(R) != d+1 or R[0] != 1 or R[-1] != 1 or (len(M) != 0 and len(M) != len(N)):
                 raise InvalidArguments("Check the ranks and the mode size.")
 
-            self.cores = source
+            self.cores = list(source)
             self.__R = R
             self.__N = N
             if len(M) == len(N):
